@@ -224,6 +224,10 @@ impl<'a> Emit<'a> {
         }
     }
 
+    pub fn nref_pub(&self, id: u32) -> String {
+        self.nref(id)
+    }
+
     pub fn cond_str(&self, c: u32) -> String {
         match &self.arena.conds[c as usize] {
             CNode::True => "true".into(),
